@@ -92,7 +92,9 @@ def make_scn(c, sid, policy):
     k = c["consts"]
     s = {"id": sid, "family": c["fam"], "workers": int(k["MaxWorkers"]), "unit_len": UNIT,
          "calls": concrete_calls(c["calls"]),
-         "panic": eval(k["PanicUnits"].replace("{", "[").replace("}", "]")), "policy": policy}
+         "panic": eval(k["PanicUnits"].replace("{", "[").replace("}", "]")), "policy": policy,
+         # non-periodic input: an encoder that refers to the wrong history must not decode correctly by coincidence
+         "data_class": "text", "seed": 7}
     if c.get("extra"):
         s.update(c["extra"])
     return s
